@@ -66,6 +66,7 @@ REWRITES = {
     "as_ref_on_mut_reference": ("re", r"(\b\w+)\.as_ref\(\)", r"Reference::as_ref(&*\1)", "x.as_ref() on &mut Reference<T> resolves to the std blanket impl `<&mut T as AsRef<U>>::as_ref`, whose body is exactly this call"),
     "usize_to_isize_expect": ("re", r"(let \w+: isize = )([\w\.]+)\.try_into\(\)\.expect\((\"[^\"]*\")\);", r"\1usize_to_isize_expect(\2, \3);", "TryFrom<usize> for isize has no vstd spec; shim = `x.try_into().expect(msg)`, panics iff x > isize::MAX"),
     "isize_to_usize_expect": ("re", r"(let \w+: usize = )(\([^;]*?\))\.try_into\(\)\.expect\((\"[^\"]*\")\);", r"\1isize_to_usize_expect(\2, \3);", "TryFrom<isize> for usize has no vstd spec; shim = `x.try_into().expect(msg)`, panics iff x < 0"),
+    "flat_map_extend": ("re", r"(?s)errors\s*\.extend\(\s*self\s*\.(\w+)\s*\.iter\(\)\s*\.flat_map\((.*?)\),?\s*\);", r"extend_flat_map(&mut errors, &self.\1, \2);", "Vec::extend(iter().flat_map(f)) -> shim with the same std body; `flat_map` applies f to each element in order and concatenates (assumed, R6)"),
     "drop_const_fn": ("re", r"\bconst fn\b", "fn", "const fn that calls non-const shim"),
 }
 
@@ -473,15 +474,38 @@ def emit_block(blk, rel, out_lines, meta):
                 k = toks[k].mate + 1 if toks[k].kind == "open" else k + 1
             ins.append((toks[k].end, payload, order))
         elif d in ("before", "after"):
-            am = re.match(r'"(.*)"\s*$', arg)
+            am = re.match(r'"(.*)"(?:\s+nth\s+(\d+)\s+of\s+(\d+))?\s*$', arg)
             if not am:
                 raise LostAnchor(f"{rel}:{tl}: anchor must be quoted")
-            anchor = am.group(1)
+            anchor = am.group(1).replace("\\n", "\n")
             cnt = text.count(anchor)
-            if cnt != 1:
-                raise LostAnchor(f"{rel}:{tl}: anchor {anchor!r} occurs {cnt} times in {record['path']}")
-            pos = text.index(anchor) + (len(anchor) if d == "after" else 0)
+            want = int(am.group(3)) if am.group(3) else 1
+            if cnt != want:
+                raise LostAnchor(f"{rel}:{tl}: anchor {anchor!r} occurs {cnt} times in {record['path']}, expected {want}")
+            nth = int(am.group(2)) if am.group(2) else 0
+            pos = -1
+            for _ in range(nth + 1):
+                pos = text.index(anchor, pos + 1)
+            pos = pos + (len(anchor) if d == "after" else 0)
             ins.append((pos, payload, order))
+        elif d == "closure":
+            # //@ closure |params| [nth K of N] : <type of the single parameter>
+            cm = re.match(r"\|(.*?)\|\s*(?:nth\s+(\d+)\s+of\s+(\d+)\s*)?(?::\s*(.*))?$", arg.strip())
+            if not cm:
+                raise LostAnchor(f"{rel}:{tl}: bad closure directive")
+            toks = rscan.tokenize(text)
+            found = rscan.find_closures(text, toks, 0, len(toks), rscan.norm(cm.group(1)))
+            want = int(cm.group(3)) if cm.group(3) else 1
+            if len(found) != want:
+                raise LostAnchor(f"{rel}:{tl}: closure |{cm.group(1)}| occurs {len(found)} times in {record['path']}, expected {want}")
+            bo, bc, bf, bl, is_block = found[int(cm.group(2)) if cm.group(2) else 0]
+            if cm.group(4):
+                ins.append((toks[bc].start, [(": " + cm.group(4).strip(), tl)], order, "inline"))
+            if is_block:
+                ins.append((toks[bf].start, payload, order))
+            else:
+                ins.append((toks[bf].start, payload + [("{", tl)], order))
+                ins.append((toks[bl].end, [(" }", tl)], order, "inline"))
         elif d == "loop":
             k_s = head.split()[0] if head else "0"
             if r.kind == "closure":
